@@ -5,11 +5,14 @@
 // on the heap's history, so the same plan could trap at different offsets when executed
 // twice in one process (found by the determinism re-check in the thorough tier).
 #pragma once
+#include "allocfault.hpp"
 #include <cstdlib>
 #include <new>
 
 inline void* sim_aligned_alloc_nothrow(std::size_t n)
 {
+  if (sim::host_alloc_should_fail())
+    return nullptr;
   std::size_t align = n >= 192 ? 4096 : 64;
   std::size_t r = (n + align - 1) & ~(align - 1);
   if (r == 0)
@@ -23,6 +26,8 @@ inline void* sim_aligned_alloc_nothrow(std::size_t n)
 }
 inline void* sim_aligned_alloc(std::size_t n)
 {
+  if (sim::host_alloc_should_fail())
+    throw std::bad_alloc();
   // glibc's memmove also picks its copy direction for blocks > 8 vectors from the page offset of
   // (destination - source) ("4k aliasing"), so buffers that can be the target of such a copy get a
   // fixed page offset as well
@@ -45,6 +50,14 @@ void* operator new(std::size_t n)
 void* operator new[](std::size_t n)
 {
   return sim_aligned_alloc(n);
+}
+void* operator new(std::size_t n, const std::nothrow_t&) noexcept
+{
+  return sim_aligned_alloc_nothrow(n);
+}
+void* operator new[](std::size_t n, const std::nothrow_t&) noexcept
+{
+  return sim_aligned_alloc_nothrow(n);
 }
 void operator delete(void* p) noexcept
 {
